@@ -45,7 +45,7 @@ class Prop(common.PropertyCheck):
             yield {'k': 'run', 'plot': mi == 0, 'hist': True, 'ninst': 1, 'arity': 1, 'default_out': False, 'rel_out': False, 'seed': rng.randrange(1 << 30),
                    'inp_name': 'minimal%d' % mi, 'minimal': minimal, 'odd_headers': False}
         for ci, (plot, hist, ninst, arity) in enumerate(combos):
-            yield {'odd_headers': ci % 2 == 0, 'k': 'run', 'plot': plot, 'hist': hist, 'ninst': ninst, 'arity': arity, 'default_out': rng.random() < 0.5 or (plot and not hist), 'rel_out': True, 'seed': rng.randrange(1 << 30),
+            yield {'cli': ci % 3 != 2, 'odd_headers': ci % 2 == 0, 'k': 'run', 'plot': plot, 'hist': hist, 'ninst': ninst, 'arity': arity, 'default_out': rng.random() < 0.5 or (plot and not hist), 'rel_out': True, 'seed': rng.randrange(1 << 30),
                    'inp_name': rng.choice(['samples', 'cells', 'mix.xls', 'xlsx', 'results.'] + ([] if (plot and not hist) else ['experiment', 'plate_07']))}
         for _ in range(self.budget(25, 300)):
             yield {'k': 'roundtrip', 'seed': rng.randrange(1 << 30), 'nrows': rng.randrange(0, 7), 'dup': rng.random() < 0.2, 'noid': rng.random() < 0.5, 'ws': rng.random() < 0.4}
@@ -150,6 +150,12 @@ class Prop(common.PropertyCheck):
                 brows = []
                 srows = [excelgen.sample_row('S0', 'FC001', 'FCFiles/s0.fcs', {} if case['minimal'] == 'nounits' else {'FL1': 'a.u.', 'FL2': 'RFI'}, None, extra={'Strain': 'x', 'Dose': 1.5}),
                          excelgen.sample_row('S2', 'FC001', 'FCFiles/s1.fcs', {}, None, gate_fraction=0.7, extra={'Strain': 'w', 'Dose': 3})]
+                if case['minimal'] == 'nobeads':
+                    # a floating-point acquisition whose fluorescence was background-subtracted and clipped at zero (exact zeros, no negative value)
+                    ex.datatype = 'F'
+                    ex.write_fcs('FCFiles/z0.fcs', 'FC001', n=650, seed=case['seed'] % 1000 + 9, nonneg='zero')
+                    ex.datatype = 'I'
+                    srows.append(excelgen.sample_row('Z0', 'FC001', 'FCFiles/z0.fcs', {'FL1': 'a.u.', 'FL2': 'RFI'}, None, gate_fraction=0.8, extra={'Strain': 'u', 'Dose': 5}))
             beads = pd.DataFrame(brows) if brows else pd.DataFrame(columns=['ID', 'Instrument ID', 'File Path', 'Beads Lot', 'Gate Fraction', 'Clustering Channels', 'FL1 MEF Values'])
             samples = pd.DataFrame(srows)
             if case.get('minimal'):
@@ -179,7 +185,12 @@ class Prop(common.PropertyCheck):
                 with warnings.catch_warnings():
                     warnings.simplefilter('ignore')
                     np.random.seed(9)
-                    FlowCal.excel_ui.run(input_path=inp_arg, output_path=outp, verbose=False, plot=case['plot'], hist_sheet=case['hist'])
+                    if case.get('cli'):
+                        # through the command-line entry point (the `flowcal` console script), options as a user types them
+                        argv = ['-i', inp_arg] + (['-o', outp] if outp else []) + (['-p'] if case['plot'] else []) + (['--histogram-sheet' if case['seed'] % 2 else '-H'] if case['hist'] else [])
+                        FlowCal.excel_ui.run_command_line(argv)
+                    else:
+                        FlowCal.excel_ui.run(input_path=inp_arg, output_path=outp, verbose=False, plot=case['plot'], hist_sheet=case['hist'])
                     if case.get('again'):
                         # the same folder processed a second time (figures and folders of the first run exist); one sample file has been
                         # replaced by a longer acquisition in between
@@ -237,6 +248,15 @@ class Prop(common.PropertyCheck):
                 res[sheet + '_added'] = list(out.columns[len(src.columns):])
                 if sheet == 'Samples':
                     res['notes'] = [str(x) for x in out['Analysis Notes']]
+                    if 'Z0' in list(out['ID']):
+                        # geometric statistics of a channel holding zeros: computed on its positive events (finite, positive), with the documented note
+                        z = out.set_index('ID').loc['Z0']
+                        for ch in ('FL1', 'FL2'):
+                            vals = [z.get('%s Geom. %s' % (ch, k)) for k in ('Mean', 'Std', 'CV')]
+                            if any(v is None or pd.isnull(v) or not np.isfinite(float(v)) or float(v) <= 0 for v in vals):
+                                problems.append('Samples: geometric statistics of channel %s of row Z0 (zero-clipped floating-point data) are %s' % (ch, vals))
+                            if ('channel %s calculated on positive events' % ch) not in str(z.get('Analysis Notes')):
+                                problems.append('Samples: row Z0 lacks the documented note on geometric statistics for channel %s (notes: %r)' % (ch, str(z.get('Analysis Notes'))[:80]))
             # the documented result columns are present in both result sheets, whether or not there are rows to fill them
             for sheet in ('Beads', 'Samples'):
                 missing = [c for c in ('Analysis Notes', 'Number of Events', 'Acquisition Time (s)') if c not in (res.get(sheet + '_added') or [])]
